@@ -432,6 +432,7 @@ def run(ctx):
     from . import system_common as sysc
     sessions, verdict = sysc.run_sessions(ctx, 150 if ctx.quick else 3000, ctx.seed + 18)
     sysc.judge(ctx, "C18", sessions, verdict, sysc.EDIT_OPS, "attribute / key views")
+    sysc.mc_for(ctx, "C18")          # MC_System: bounded model of whole sessions, every transition replayed on the library
     ctx.exhaustive = True
     ctx.rule = ("S2C: every distinct transition (source mapping, operation) of the bounded Object model "
                 "for 12 kind x property configurations, replayed on the real object along a shortest "
